@@ -539,6 +539,17 @@ impl Wallet {
         self.available_balance
     }
 
+    /// balance held in slips that generate_slips() is willing to use, i.e. excluding slips that
+    /// are about to be rebroadcast
+    pub fn get_spendable_balance(&self, latest_block_id: u64, genesis_period: u64) -> Currency {
+        self.unspent_slips
+            .iter()
+            .filter_map(|key| self.slips.get(key))
+            .filter(|slip| slip.block_id > latest_block_id.saturating_sub(genesis_period - 1))
+            .map(|slip| slip.amount)
+            .sum()
+    }
+
     pub fn get_unspent_slip_count(&self) -> u64 {
         self.unspent_slips.len() as u64
     }
